@@ -108,3 +108,11 @@ try:
 except montepy.errors.BrokenObjectLinkError:
     pass
 report("remove_duplicate_surfaces failing on a renumbered material empties cell.surfaces", len(p.cells[1].surfaces) != 2)
+# (16) a refused geometry (number conflict) leaves some of its dividers registered and points at the cell
+p = read(); c = p.cells[3]; s1x = surf(3, 42.0); s9 = surf(9, 9.0); g = (+s9 & ~p.cells[1]) & -s1x  # cell 3 holds surface 3
+try:
+    c.geometry = g
+except montepy.errors.NumberConflictError:
+    pass
+report("refused cell.geometry = g: dividers of g stay in cell.surfaces/complements, g points at the cell",
+       has(c.surfaces, s9) or has(c.complements, p.cells[1]) or g._cell is c)
